@@ -30,6 +30,21 @@ class LayoutViolation(AnalysisError):
     not fit its struct code): reported by the checkers as a failed obligation, not as an analysis error."""
 
 
+class NeedSplit(Exception):
+    """A comparison of a raw input field with a constant is not decided on the field's current interval; the driver
+    splits the interval at `points` (each point p separates [lo, p-1] from [p, hi]) and re-evaluates."""
+
+    def __init__(self, field, points):
+        self.field, self.points = field, points
+
+
+class NeedDecision(Exception):
+    """A branch condition over derived symbolic values is undecided; the driver explores both outcomes."""
+
+    def __init__(self, text):
+        self.text = text
+
+
 class RaiseOutcome(Exception):
     def __init__(self, exc_name):
         self.exc_name = exc_name
@@ -248,12 +263,23 @@ class Obj:
 class Evaluator:
     """Interprets one function body over the abstract domain."""
 
-    def __init__(self, repo, func, env: dict, attr_env: dict | None = None, hooks: dict | None = None):
+    def __init__(self, repo, func, env: dict, attr_env: dict | None = None, hooks: dict | None = None, decisions=None):
         self.repo = repo
         self.func = func
         self.env = dict(env)  # local names
         self.attr = dict(attr_env or {})  # dotted names such as self.stream -> value
         self.hooks = hooks or {}
+        self.decisions = list(decisions or [])  # forced outcomes of undecided branches, in evaluation order
+        self._decision_index = 0
+        self.decision_log: list[str] = []
+
+    def _decide(self, text):
+        if self._decision_index < len(self.decisions):
+            v = self.decisions[self._decision_index]
+            self._decision_index += 1
+            self.decision_log.append(f"{text} := {v}")
+            return v
+        raise NeedDecision(text)
 
     # ---------------------------------------------------------------- statements
     def run(self):
@@ -304,6 +330,18 @@ class Evaluator:
                 self._merge_if(st, c.bits[0])
                 return
             raise Unsupported(f"branch on a value that is not decided: `{norm(st.test)}` = {c!r}")
+        if isinstance(st, ast.While):
+            for _ in range(16):
+                c = self.expr(st.test)
+                if isinstance(c, SymInt) and c.is_const():
+                    c = bool(c.value())
+                if not isinstance(c, bool):
+                    raise Unsupported(f"loop condition `{norm(st.test)}` is not decided")
+                if not c:
+                    self._block(st.orelse)
+                    return
+                self._block(st.body)
+            raise Unsupported(f"loop `while {norm(st.test)}` does not finish within 16 iterations")
         if isinstance(st, ast.For):
             it = self.expr(st.iter)
             if not isinstance(it, range):
@@ -415,10 +453,18 @@ class Evaluator:
                 return False
             raise Unsupported(f"chained comparison `{norm(e)}`")
         if isinstance(e, ast.BoolOp):
-            vals = [self.expr(v) for v in e.values]
-            if all(isinstance(v, bool) for v in vals):
-                return all(vals) if isinstance(e.op, ast.And) else any(vals)
-            raise Unsupported(f"boolean operator on symbolic values `{norm(e)}`")
+            is_and = isinstance(e.op, ast.And)
+            for sub in e.values:  # short-circuit like Python does
+                v = self.expr(sub)
+                if isinstance(v, SymInt) and v.is_const():
+                    v = bool(v.value())
+                if not isinstance(v, bool):
+                    raise Unsupported(f"boolean operator on symbolic values `{norm(e)}`")
+                if is_and and not v:
+                    return False
+                if not is_and and v:
+                    return True
+            return is_and
         if isinstance(e, ast.Tuple):
             return tuple(self.expr(x) for x in e.elts)
         if isinstance(e, ast.List):
@@ -476,6 +522,14 @@ class Evaluator:
                 if type(op) in table:
                     return table[type(op)](a, b)
             sa_, sb = as_sym(a), as_sym(b)
+            if sa_.is_const() and sb.is_const():
+                import operator as o
+
+                table = {ast.Add: o.add, ast.Sub: o.sub, ast.Mult: o.mul, ast.FloorDiv: o.floordiv, ast.LShift: o.lshift, ast.RShift: o.rshift,
+                         ast.BitAnd: o.and_, ast.BitOr: o.or_, ast.Mod: o.mod, ast.Pow: o.pow}
+                if type(op) in table:
+                    res = table[type(op)](sa_.value(), sb.value())
+                    return res if res < 0 else SymInt.const(res)
             if isinstance(op, ast.BitAnd):
                 return op_and(sa_, sb)
             if isinstance(op, ast.BitOr):
@@ -546,7 +600,16 @@ class Evaluator:
                     res = False
                 if res is not None:
                     return res if isinstance(op, ast.Eq) else not res
-            raise Unsupported(f"comparison `{norm(node)}` is not decided on the interval [{lo}, {hi}]")
+            raw = _raw_field(a)
+            if raw is not None:
+                if isinstance(op, (ast.Gt, ast.LtE)):
+                    pts = [c + 1]
+                elif isinstance(op, (ast.GtE, ast.Lt)):
+                    pts = [c]
+                else:
+                    pts = [c, c + 1]
+                raise NeedSplit(raw, [p for p in pts if lo < p <= hi])
+            return self._decide(norm(node))
         if isinstance(a, int) and isinstance(b, SymInt):
             flip = {ast.Lt: ast.Gt, ast.Gt: ast.Lt, ast.LtE: ast.GtE, ast.GtE: ast.LtE, ast.Eq: ast.Eq, ast.NotEq: ast.NotEq}
             return self._compare(flip[type(op)](), b, a, node)
@@ -629,6 +692,59 @@ class Evaluator:
         if isinstance(target, ClassInfo) or name == "cls":
             return Obj(target.name if isinstance(target, ClassInfo) else "cls", args, kwargs)
         raise Unsupported(f"call `{norm(e)}`")
+
+
+def _raw_field(v: SymInt):
+    """Name of the input field if v is exactly that field (bit k = (field, k) for every k), else None."""
+    if not v.bits:
+        return None
+    name = None
+    for k, bit in enumerate(v.bits):
+        if not (isinstance(bit, tuple) and bit[1] == k):
+            return None
+        if name is None:
+            name = bit[0]
+        elif bit[0] != name:
+            return None
+    return name
+
+
+def explore_intervals(make_evaluator, field, lo, hi, depth=0):
+    """Evaluate for field in [lo, hi], splitting the interval wherever a comparison of the raw field with a constant
+    is undecided.  make_evaluator(lo, hi) -> Evaluator.  Returns [(lo, hi, outcome)], outcome = ('return', value) or
+    ('raise', exception name)."""
+    if depth > 24:
+        raise Unsupported("interval exploration too deep")
+    ev = make_evaluator(lo, hi)
+    try:
+        return [(lo, hi, ("return", ev.run()))]
+    except RaiseOutcome as r:
+        return [(lo, hi, ("raise", r.exc_name))]
+    except NeedSplit as s:
+        if s.field != field or not s.points:
+            raise Unsupported(f"undecided comparison on field {s.field} in [{lo}, {hi}]")
+        cuts = sorted(set(s.points))
+        out = []
+        start = lo
+        for p in cuts:
+            out += explore_intervals(make_evaluator, field, start, p - 1, depth + 1)
+            start = p
+        out += explore_intervals(make_evaluator, field, start, hi, depth + 1)
+        return out
+
+
+def explore_decisions(make_evaluator, prefix=(), depth=0):
+    """Evaluate, exploring both outcomes of every undecided branch.  make_evaluator(decisions) -> Evaluator.
+    Returns [(decision log, outcome)]."""
+    if depth > 8:
+        raise Unsupported("too many undecided branches")
+    ev = make_evaluator(list(prefix))
+    try:
+        return [(ev.decision_log, ("return", ev.run()))]
+    except RaiseOutcome as r:
+        return [(ev.decision_log, ("raise", r.exc_name))]
+    except NeedDecision:
+        return explore_decisions(make_evaluator, tuple(prefix) + (True,), depth + 1) + explore_decisions(make_evaluator, tuple(prefix) + (False,), depth + 1)
 
 
 def _unsupported(msg):
